@@ -205,7 +205,7 @@ fn verify(cx: &mut Ctx, archive: &str, privkey: Option<&str>, files: &Files, tag
         }
     }
     // extract: whole archive (linear)
-    for (form, extra) in [("linear", vec![]), ("glob", vec![s("--glob"), s("*")])] {
+    for (form, extra) in [("linear", vec![]), ("glob", vec![s("-v"), s("--glob"), s("*")])] {
         let out = format!("x-{tag}-{form}");
         let _ = std::fs::remove_dir_all(cx.dir.join(&out));
         let mut a = vec![s("extract"), s("-i"), s(archive), s("-o"), out.clone()];
